@@ -97,6 +97,18 @@ CHECKS['C15'] = dict(
               "specs, set-level resolution soundness) + bounded run-time contract on solve_cnf",
     design='4 C15')
 
+CHECKS['C16'] = dict(
+    category='exploration',
+    text="Bounded stand-in (not a proof): solve_matrix (Omega test) and Simplex are run on all 2x2 systems with small "
+         "coefficients and on random systems up to 5 variables / 8 constraints; 'UNSAT' is compared with z3 "
+         "(LIA / LRA), every 'SAT' witness is evaluated against every constraint. No function of omega.py / "
+         "simplex.py is under a deductive contract yet.",
+    note="Oracle: z3 and own evaluation. Calls that raise count as 'no answer'. Proof construction of "
+         "OmegaHOL/SimplexHOLWrapper is not checked beyond the verdict.",
+    technique="run-time contract on the real decision procedures over enumerated and random systems (bounded "
+              "stand-in for the deductive technique)",
+    design='4 C16')
+
 NOT_APPLICABLE = {
     'C19': "real-analytic equality of integrals/limits/series with a numeric floating-point oracle; no decidable "
            "function contract (DESIGN 4 C19)",
